@@ -154,3 +154,51 @@ impl SummaryMap {
     pub fn vupdate(&mut self, id: TreeId, node: &Node) { unimplemented!() }
 }
 pub struct RewriteVisitor { pub overrides: Override, pub node_modification: NodeModification, pub all_trees: bool, pub summary: SummaryMap }
+
+// ---- repair index: PackChecker::check_pack (what happens to the entries of one index file) ----
+#[derive(Clone, Copy, PartialEq, Eq, Structural)]
+pub struct PackId(pub u64);
+pub struct IndexPack { pub id: PackId, pub rest: u64 }
+pub uninterp spec fn PSIZE(p: IndexPack) -> u32;   // IndexPack::pack_size()
+pub uninterp spec fn HSIZE(p: IndexPack) -> u32;   // PackHeaderRef::from_index_pack(&p).size()
+impl IndexPack {
+    #[verifier::external_body]
+    pub fn pack_size(&self) -> (r: u32) ensures r == PSIZE(*self), { unimplemented!() }
+}
+#[verifier::external_body]
+pub fn vheader_size_of(p: &IndexPack) -> (r: u32) ensures r == HSIZE(*p), { unimplemented!() }
+pub struct IndexFile { pub packs: Vec<IndexPack>, pub packs_to_delete: Vec<IndexPack> }
+pub open spec fn all_packs_spec(f: IndexFile) -> Seq<(IndexPack, bool)> {
+    Seq::new(f.packs@.len() + f.packs_to_delete@.len(), |i: int| if i < f.packs@.len() { (f.packs@[i], false) } else { (f.packs_to_delete@[i - f.packs@.len()], true) })
+}
+impl IndexFile {
+    #[verifier::external_body]
+    pub fn default() -> (r: IndexFile) ensures r.packs@.len() == 0 && r.packs_to_delete@.len() == 0, { unimplemented!() }
+    // ASSUMED (iterator adapters): live packs tagged false, then marked packs tagged true
+    #[verifier::external_body]
+    pub fn all_packs(self) -> (r: Vec<(IndexPack, bool)>) ensures r@ == all_packs_spec(self), { unimplemented!() }
+    // IndexFile::add (unit of C07)
+    #[verifier::external_body]
+    pub fn add(&mut self, p: IndexPack, delete: bool)
+        ensures delete ==> final(self).packs_to_delete@ == old(self).packs_to_delete@.push(p) && final(self).packs@ == old(self).packs@,
+                !delete ==> final(self).packs@ == old(self).packs@.push(p) && final(self).packs_to_delete@ == old(self).packs_to_delete@,
+    { unimplemented!() }
+}
+pub struct VPackSizes { pub m: Ghost<Map<PackId, u32>> }
+impl VPackSizes {
+    pub open spec fn view(&self) -> Map<PackId, u32> { self.m@ }
+    #[verifier::external_body]
+    pub fn remove(&mut self, id: &PackId) -> (r: Option<u32>)
+        ensures final(self)@ == old(self)@.remove(*id),
+            old(self)@.dom().contains(*id) ==> r == Some(old(self)@[*id]), !old(self)@.dom().contains(*id) ==> r is None,
+    { unimplemented!() }
+}
+pub struct PackChecker { pub packs: VPackSizes, pub packs_to_read: Vec<(PackId, Option<u32>, u32)> }
+// an index file is "sound w.r.t. the pack listing": its packs are distinct, exist, and have the indexed size
+pub open spec fn file_is_sound(f: IndexFile, listing: Map<PackId, u32>) -> bool {
+    let a = all_packs_spec(f);
+    &&& forall|i: int| 0 <= i < a.len() ==> listing.dom().contains((#[trigger] a[i]).0.id) && listing[a[i].0.id] == PSIZE(a[i].0)
+    &&& forall|i: int, j: int| 0 <= i < j < a.len() ==> (#[trigger] a[i]).0.id != (#[trigger] a[j]).0.id
+}
+#[verifier::external_body]
+pub fn vclone_ipack(p: &IndexPack) -> (r: IndexPack) ensures r == *p, { unimplemented!() }
